@@ -12,18 +12,20 @@ CLAIMED = {
                      "validated by TLC against ChaChaFn.tla, an independent transcription of the ChaCha/HChaCha definitions pinned by RFC 7539 and "
                      "XChaCha-draft vectors; inputs are sampled, so this is exploration with an independent oracle, not a proof over all keys.",
                 note="Trusted: TLC, the transcription in ChaChaFn.tla (pinned by published vectors on every run), the harness recording inputs/outputs faithfully (canary event shows the binding is live)."),
-    "C02": dict(level="model_checking", design="5/C02", technique="TLC model checking of an implementation-shaped TLA+ stream model (small constants exhaustive, real constants graph) + replay of every graph edge on the code + TLC trace validation against the ideal spec",
+    "C02": dict(level="model_checking", design="5/C02", technique="TLC model checking of an implementation-shaped TLA+ stream model (small constants exhaustive, real constants graph) + Apalache inductive invariant of its closed form at the real constants + replay of every graph edge on the code + TLC trace validation against the ideal spec",
                 text="Stream.tla mirrors Buffer::try_apply_keystream/seek/current_pos section by section with the ideal position as ghost state; TLC checks all histories at scaled constants "
                      "(invariants PosCoherent, BufferedBlockRight, NonceIntact, LenCoherent; action properties OutputAtAbsolutePos, SeekTotal, CurrentPosRight, NoPanic, FailedApplyKeepsPos). "
                      "The same module at the real constants yields a labelled state graph whose every edge is executed on the real ciphers in release and debug builds, with Buffer's internals "
-                     "compared to the model state after each call, and all recorded histories (graph-derived and random) are validated by TLC against the ideal specification.",
+                     "compared to the model state after each call, and all recorded histories (graph-derived, each ending in a probe, and random) are validated by TLC against the ideal specification. "
+                     "A recursion-free closed form of the bookkeeping (apalache/StreamCF.tla) is shown by TLC to equal Stream.tla in every reachable scaled state and its invariant is proved inductive by Apalache "
+                     "at the real constants (2^32, 2^64, block 64) for unbounded histories: exhaustion exact, reported position = position, nonce word intact.",
                 note="Trusted: TLC; scaling argument (small constants) + depth bound (real constants); ChaChaFn.tla as keystream definition; harness event recording (canary episodes rejected)."),
     "C11": dict(level="model_checking", design="5/C11", technique="TLC model checking of Stream.tla exhaustion rules + edge replay at the keystream limits + TLC trace validation against the ideal spec",
                 text="Same machinery as C02 with alphabets concentrated at 2^38 bytes, block 2^32 and 2^64-1: TLC proves on the scaled model that apply fails iff the request exceeds the keystream, that a failed "
                      "apply is a no-op, that the nonce word never changes and that seek beyond the end is an error; every edge of the real-constant graph and seeded histories (incl. the 2^64-block end entered "
                      "through public fields) are executed on the code and validated by TLC against the ideal spec.",
                 note="Trusted: as C02; the teleport into the 2^64-block end relies on Buffer's public fields meaning what Stream.tla says (checked by the drift comparison on all graph edges)."),
-    "C14": dict(level="model_checking", design="5/C14", technique="TLC exhaustive check of the refill/refill4 counter model at scaled word size + TLC trace validation of refill events against ChaChaFn",
+    "C14": dict(level="model_checking", design="5/C14", technique="TLC exhaustive check of the refill/refill4 counter model at scaled word size + Apalache check of the same law at the real word size for all counter values + TLC trace validation of refill events against ChaChaFn",
                 text="MCGuts.tla models refill_wide's lane arithmetic (d0123, add_pos) and the single-block increment; TLC checks Refill4Impl = Refill^4 for every counter and stream-id value of a scaled word. "
                      "Recorded refill/refill4 calls of the real code at all carry points, double rounds 0..10, per build profile, forced SIMD backend (hook H1) and the portable backend are validated block by block by TLC.",
                 note="Trusted: TLC, ChaChaFn.tla (published vectors), uninterpreted-block abstraction in the small model, harness recording (canary)."),
